@@ -203,6 +203,33 @@ def run(chk):
                 except Exception as e:  # noqa
                     if sum(len(s) for s in slabs[chunk * int(np.ceil(len(slabs) / 2)):(chunk + 1) * int(np.ceil(len(slabs) / 2))]) > 0:
                         chk.violation(f'chunk-raises-{type(e).__name__}', f'{desc} chunk {chunk}/2: {type(e).__name__}: {e}', payload)
+    # ---- extended coverage (beyond C12): the chunks of n_chunks <= nfiles tile the slab files (TLC: ChunkTheorem); union over chunks = every halo once
+    try:
+        et = "---- MODULE MC_HodChunks ----\nEXTENDS HodStaging\nVARIABLE v\nASSUME ChunkTheorem(16)\nInit == v = 0\nNext == v' = v\n====\n"
+        run_tlc(chk, 'MC_HodChunks', module_text=et, cfg_text='CONSTANTS\n  Variant = "fixed"\nINIT Init\nNEXT Next\n', timeout=300)
+        slabs = [[3, 10], [24], [17, 31], [45]]
+        write_case(root, slabs, rng, False)
+        sim_params = dict(sim_name=SIM, sim_dir=os.path.join(root, 'sim'), subsample_dir=os.path.join(root, 'subsample'), output_dir=os.path.join(root, 'out'), z_mock=0.5, force_mt=True)
+        HOD_params = dict(tracer_flags=dict(LRG=True, ELG=False, QSO=False), LRG_params={}, want_ranks=False, want_AB=False, want_shear=False, want_expvel=False, want_rsd=True)
+        problems = []
+        for nch in (1, 2, 4):
+            seen = []
+            for c in range(nch):
+                with warnings.catch_warnings():
+                    warnings.simplefilter('ignore')
+                    b = AbacusHOD(sim_params, HOD_params, chunk=c, n_chunks=nch)
+                seen += np.asarray(b.halo_data['hid']).astype(int).tolist()
+            if sorted(seen) != sorted(i for s_ in slabs for i in s_):
+                problems.append(f'n_chunks={nch}: union of the chunks holds halos {sorted(seen)}')
+        try:
+            with warnings.catch_warnings():
+                warnings.simplefilter('ignore')
+                AbacusHOD(sim_params, HOD_params, chunk=2, n_chunks=3)
+        except Exception as e:  # noqa
+            problems.append(f'observation: 4 slab files with n_chunks=3 leave chunk 2 empty (ceil split) and the constructor raises {type(e).__name__}')
+        chk.extended('HOD chunking tiles the slab files', not [p for p in problems if not p.startswith('observation')], '; '.join(problems))
+    except Exception as e:  # noqa
+        chk.extended('HOD chunking tiles the slab files', False, f'{type(e).__name__}: {e}')
     chk.part('staging_runs', runs=nrun, unsorted_arrangements=nontriv)
     chk.add_cases(nrun, nontrivial=nontriv, traces=nrun)
 
